@@ -7,7 +7,7 @@ Driver for the `pathmap` area.
     pathmap len <n> <path>^n                             → number of distinct keys
     pathmap rec <visit>                                  → ok|err <current-after> <n> (<path> <ref> <def>)^n   (sorted)
     <path>  ::= <k> (K|I <hexname>)^k
-    <visit> ::= L 0|1 | S <n> (<ref> <def> <visit>)^n | M <ref> <def> <n> (- | <hexkey>) <ref> <def> <visit>)^n
+    <visit> ::= L 0|1 | G <visit> | S <n> (<ref> <def> <visit>)^n | M <ref> <def> <n> (- | <hexkey>) <ref> <def> <visit>)^n
 -/
 namespace Driver.PathMap
 open Driver SaphyrVerif SaphyrVerif.PathMap
@@ -68,6 +68,7 @@ def pVisit : Nat → List String → Option (Visit Locs × List String)
   | fuel + 1, ts =>
     match ts with
     | "L" :: ok :: rest => some (.leaf (tokBool ok), rest)
+    | "G" :: rest => (pVisit fuel rest).map fun (v, r) => (.ignored v, r)
     | "S" :: n :: rest =>
       match n.toNat? with
       | some n => (pItems fuel n rest).map fun (is, r) => (.seq is, r)
